@@ -345,10 +345,10 @@ func scenarioFacts(p *Plan, ri int) map[string]string {
 	md := sch.method(r.Client.Method)
 	f["shape"] = methodStreamFacts(md)
 	switch {
-	case r.Client.Form == FormREST || n.Protocol == ProtoREST || r.Client.Form == FormConnectGet:
-		f["path"] = "prep"
 	case formProtocol(r.Client.Form) == n.Protocol && r.Client.Codec == n.Codec && r.Client.Compression == n.Compression:
 		f["path"] = "passthrough"
+	case r.Client.Form == FormREST || n.Protocol == ProtoREST || r.Client.Form == FormConnectGet:
+		f["path"] = "prep"
 	case r.Client.Codec == n.Codec && r.Client.Compression == n.Compression:
 		f["path"] = "reframe"
 	default:
